@@ -1,5 +1,6 @@
 (* C07 - growth is demand-gated. *)
 From Coq Require Import ZArith List Bool.
+From GCL Require Proofs.TablesOk.
 From GCL Require Import Base.F64 Model.Measure Model.Limits Proofs.LimitsBasic.
 Import ListNotations.
 Open Scope Z_scope.
@@ -35,3 +36,10 @@ Proof.
   exact (fun Hd Hi => ltac:(unfold aimd_step; rewrite Hd; destruct (Z.leb_spec (a_limit a) (s_inflight s)); [reflexivity|exfalso; apply (Z.lt_irrefl (a_limit a)); eapply Z.le_lt_trans; eassumption])).
 Qed.
 Print Assumptions C07_aimd_recovers.
+
+(* Generated-fact obligation, re-checked on every run against Gen/Tables.v (dumped from /repo's limit/functions as built now):
+   the lookup tables and the queue-size / log10 functions agree with the model's closed forms on the table,
+   at its boundary and beyond it. *)
+Theorem C07_tables_agree : TablesOk.tables_ok = true /\ TablesOk.functions_ok = true /\ TablesOk.log10f_ok = true.
+Proof. exact (conj TablesOk.tables_agree (conj TablesOk.functions_agree TablesOk.log10f_agrees)). Qed.
+Print Assumptions C07_tables_agree.
